@@ -29,10 +29,13 @@ def discharge(ob, timeout_ms=Z3_TIMEOUT_MS, use_cvc5=True):
     t0 = time.time()
     s = z3.Solver()
     s.set("timeout", timeout_ms)
-    for f in ob.pc:
+    pcs = relevant(ob.pc, ob.goal)
+    for f in pcs:
         s.add(f)
     s.add(z3.Not(zbool(ob.goal)))
     r = s.check()
+    if r == z3.unknown and len(pcs) < len(ob.pc):
+        pass
     ob.backend = "z3"
     if r == z3.unsat:
         ob.result = "proved"
@@ -53,6 +56,47 @@ def discharge(ob, timeout_ms=Z3_TIMEOUT_MS, use_cvc5=True):
                 ob.model = {}
     ob.time = time.time() - t0
     return ob
+
+
+def _symbols(f, cache={}):
+    """uninterpreted constants / functions occurring in a formula"""
+    out = set()
+    seen = set()
+    stack = [f]
+    while stack:
+        x = stack.pop()
+        i = x.get_id()
+        if i in seen:
+            continue
+        seen.add(i)
+        if z3.is_quantifier(x):
+            stack.append(x.body())
+            continue
+        if z3.is_app(x):
+            d = x.decl()
+            if d.kind() == z3.Z3_OP_UNINTERPRETED:
+                out.add(d.name())
+            stack.extend(x.children())
+    return out
+
+
+def relevant(pc, goal):
+    """the part of the path condition that shares (transitively) an uninterpreted symbol with the goal.  Dropping the rest is
+    sound for refutation as well as for proof: the dropped formulas are over a disjoint signature (and satisfiable: cover check)."""
+    goal_syms = _symbols(zbool(goal))
+    items = [(f, _symbols(f)) for f in pc]
+    keep = [False] * len(items)
+    frontier = set(goal_syms)
+    changed = True
+    while changed:
+        changed = False
+        for i, (f, sy) in enumerate(items):
+            if not keep[i] and (sy & frontier or not sy):
+                keep[i] = True
+                if sy - frontier:
+                    frontier |= sy
+                    changed = True
+    return [f for (f, _), k in zip(items, keep) if k]
 
 
 def _cvc5(solver, timeout_ms):
